@@ -31,6 +31,7 @@ pub enum FK {
     CtLabelSwap,
     Oversize,
     UnknownField,
+    TypeConfusion,
     ByteFlip,
     // parameters
     ParamDrop,
@@ -64,6 +65,7 @@ impl FK {
             FK::CtLabelSwap => "content_type_label_swap",
             FK::Oversize => "oversize",
             FK::UnknownField => "unknown_field",
+            FK::TypeConfusion => "type_confusion",
             FK::ByteFlip => "byte_flip",
             FK::ParamDrop => "param_drop",
             FK::ParamDup => "param_dup",
@@ -205,6 +207,7 @@ fn fault_counter(k: FK) -> &'static str {
         FK::CtLabelSwap => "fault.content_type_label_swap_fired",
         FK::Oversize => "fault.oversize_fired",
         FK::UnknownField => "fault.unknown_field_fired",
+        FK::TypeConfusion => "fault.type_confusion_fired",
         FK::ByteFlip => "fault.byte_flip_fired",
         FK::ParamDrop => "fault.param_drop_fired",
         FK::ParamDup => "fault.param_dup_fired",
@@ -415,6 +418,73 @@ pub fn splice_unknown(t: &mut Tape, ty: &Ty, doc: &mut Value, name: &str) -> boo
     } else {
         false
     }
+}
+
+/// Replaces one number / boolean leaf by a canary-carrying string: a well-formed
+/// document that serde rejects with a message quoting the value.
+pub fn confuse_json(t: &mut Tape, doc: &mut Value, text: &str) -> bool {
+    fn count(v: &Value) -> usize {
+        match v {
+            Value::Number(_) | Value::Bool(_) => 1,
+            Value::Array(a) => a.iter().map(count).sum(),
+            Value::Object(o) => o.values().map(count).sum(),
+            _ => 0,
+        }
+    }
+    fn set(v: &mut Value, k: &mut usize, text: &str) -> bool {
+        match v {
+            Value::Number(_) | Value::Bool(_) => {
+                if *k == 0 {
+                    *v = Value::String(text.to_string());
+                    return true;
+                }
+                *k -= 1;
+                false
+            }
+            Value::Array(a) => a.iter_mut().any(|x| set(x, k, text)),
+            Value::Object(o) => o.values_mut().any(|x| set(x, k, text)),
+            _ => false,
+        }
+    }
+    let n = count(doc);
+    if n == 0 {
+        return false;
+    }
+    let mut k = t.draw(n as u64) as usize;
+    set(doc, &mut k, text)
+}
+
+pub fn confuse_smile(t: &mut Tape, doc: &mut serde_smile::value::Value, text: &str) -> bool {
+    use serde_smile::value::Value as S;
+    fn count(v: &S) -> usize {
+        match v {
+            S::Integer(_) | S::Long(_) | S::Boolean(_) | S::Double(_) | S::Float(_) => 1,
+            S::Array(a) => a.iter().map(count).sum(),
+            S::Object(o) => o.values().map(count).sum(),
+            _ => 0,
+        }
+    }
+    fn set(v: &mut S, k: &mut usize, text: &str) -> bool {
+        match v {
+            S::Integer(_) | S::Long(_) | S::Boolean(_) | S::Double(_) | S::Float(_) => {
+                if *k == 0 {
+                    *v = S::String(text.to_string());
+                    return true;
+                }
+                *k -= 1;
+                false
+            }
+            S::Array(a) => a.iter_mut().any(|x| set(x, k, text)),
+            S::Object(o) => o.values_mut().any(|x| set(x, k, text)),
+            _ => false,
+        }
+    }
+    let n = count(doc);
+    if n == 0 {
+        return false;
+    }
+    let mut k = t.draw(n as u64) as usize;
+    set(doc, &mut k, text)
 }
 
 #[derive(Clone, Debug)]
@@ -764,6 +834,39 @@ pub fn apply_request_faults(
             }
         }
         let still_json = wire.header("content-type") == Some(JSON_CT);
+        if !still_json {
+            // value-bearing damage of a Smile body: spliced / confused on the plain Smile tree
+            if want(plan, FK::UnknownField) {
+                if let (Some(ty), Ok(mut v)) = (&body_ty, serde_smile::from_slice::<serde_smile::value::Value>(&bytes)) {
+                    let name = format!("extra{}", &plan.alpha);
+                    if ctx.with_tape(|t| crate::pipe::splice_unknown_smile(t, ty, &mut v, &name)) {
+                        bytes = serde_smile::to_vec(&v).unwrap();
+                        ctx.count("probe.unknown_field_spliced_smile");
+                        fire(ctx, plan, &mut fired, FK::UnknownField, name, Expect::Reject { code: "InvalidArgument", param: None });
+                    }
+                }
+            } else if want(plan, FK::TypeConfusion) {
+                if let Ok(mut v) = serde_smile::from_slice::<serde_smile::value::Value>(&bytes) {
+                    let text = format!("tc{}", &plan.alpha);
+                    if ctx.with_tape(|t| confuse_smile(t, &mut v, &text)) {
+                        bytes = serde_smile::to_vec(&v).unwrap();
+                        ctx.count("probe.type_confusion_smile");
+                        fire(ctx, plan, &mut fired, FK::TypeConfusion, text, Expect::Reject { code: "InvalidArgument", param: None });
+                    }
+                }
+            }
+        }
+        if still_json && want(plan, FK::TypeConfusion) {
+            if let Ok(mut v) = serde_json::from_slice::<Value>(&bytes) {
+                if serde_json::to_vec(&v).ok().as_deref() == Some(&bytes[..]) {
+                    let text = format!("tc{}", &plan.alpha);
+                    if ctx.with_tape(|t| confuse_json(t, &mut v, &text)) {
+                        bytes = serde_json::to_vec(&v).unwrap();
+                        fire(ctx, plan, &mut fired, FK::TypeConfusion, text, Expect::Reject { code: "InvalidArgument", param: None });
+                    }
+                }
+            }
+        }
         if still_json && want(plan, FK::Pretty) {
             if let Ok(v) = serde_json::from_slice::<Value>(&bytes) {
                 // only when plain re-serialisation is lossless for this document
